@@ -27,6 +27,7 @@
 #include <sys/wait.h>
 #include <unistd.h>
 #include <errno.h>
+#include "CppUTest/TestTestingFixture.h"
 #include <fcntl.h>
 
 namespace rs {
@@ -227,6 +228,8 @@ static void failCStyle(const Op& o, const char* text, const char* file, size_t l
     default: CHECK_EQUAL_C_BITS_LOCATION(0x0f, 0xf0, 0xff, 1, text, file, line); break;
     }
 }
+static void nestedPassingTest() { CHECK(true); }
+static void nestedFailingTest() { FAIL("the nested test fails"); }
 static void execOp(const Group& T, const Op& o) {
     g_fired[o.kind]++;
     const char* file = o.s.empty() ? T.sarg(2) : o.s.c_str();
@@ -353,6 +356,9 @@ static void execOp(const Group& T, const Op& o) {
         delete local;
         break;
     }
+    case K_NESTED_RUN: {      // as the library's own tests do: a fixture with a registry, output and result of its own runs one test; afterwards the outer test is current again
+        TestTestingFixture fx; fx.setTestFunction(o.a ? nestedFailingTest : nestedPassingTest); fx.runAllTests();
+        break; }
     case K_ADD_FAILURES: { UtestShell* cur = UtestShell::getCurrent(); for (int64_t n = 0; n < o.a; n++) cur->addFailure(TestFailure(cur, file, line, SimpleString(text))); break; }
     case K_PLUGIN_REMOVE: { size_t p = (size_t)o.a; if (p < RS.pluginObjs.size()) { if (!RS.pluginInstalled[p]) fired("remove_plugin_name_that_is_not_installed"); RS.reg->removePluginByName(RS.pluginObjs[p]->getName()); RS.pluginInstalled[p] = 0; } break; }   // a name that is not installed: nothing may change
     case K_PTR_SET: UT_PTR_SET(g_tgt[o.a % N_TARGETS], (void*)&g_val[o.b % N_VALUES]); break;
@@ -694,7 +700,7 @@ void executeRun(const Desc& d, Obs& o) {
     for (size_t i = 0; i < plugins.size(); i++) { plugins[i]->~SimPlugin(); ::free(plugins[i]); }
     for (size_t i = 0; i < owned.size(); i++) { owned[i]->~UtestShell(); ::free(owned[i]); }
 
-    static const char* const firedNames[K_COUNT] = { 0, 0, 0, "fail_check_cpp", "fail_check_c_longjmp", "throw_std", "throw_foreign", 0, 0, 0, 0, 0, 0, 0, 0, 0, 0, 0, 0, 0, 0, 0, 0, 0, 0, 0, "plugin_installed_mid_run", "plugin_removed_mid_run", "second_leak_plugin_built_and_destroyed", "failures_added_without_leaving_the_phase" };
+    static const char* const firedNames[K_COUNT] = { 0, 0, 0, "fail_check_cpp", "fail_check_c_longjmp", "throw_std", "throw_foreign", 0, 0, 0, 0, 0, 0, 0, 0, 0, 0, 0, 0, 0, 0, 0, 0, 0, 0, 0, "plugin_installed_mid_run", "plugin_removed_mid_run", "second_leak_plugin_built_and_destroyed", "failures_added_without_leaving_the_phase", "nested_run_inside_a_test" };
     for (int k = 0; k < K_COUNT; k++) { if (firedNames[k] && g_fired[k]) fired(firedNames[k], g_fired[k]); g_fired[k] = 0; }
     SimIO& io = simIO();
     o.console = io.console; o.writesAfterClose = io.writesAfterClose; o.badHandle = io.badHandle;
